@@ -40,8 +40,16 @@ var c07SimulOrders = []string{"Ic Od Io|Oo", "Od Ic Io|Oo"}
 
 const c07SimulRepeat = 16
 
+// steered collisions (yield point "opensent", shared gate simOpenSentGate): gobgp's FSM goroutine is held at the
+// top of the OpenSent select loop (G) until gobgp has dialled, both of the speaker's OPENs are written and gobgp's
+// readers have queued them; on release (R) both recvChan and outgoingConnCh are ready, select picks either branch
+// at random (hence the repetitions) and gobgp's own collision code runs in every case.
+var c07SteeredOrders = []string{"G Ic Od Io|Oo R", "G Od Ic Io|Oo R"}
+
+const c07SteeredRepeat = 16
+
 func c07CollisionCases() int {
-	return len(c07SingleEvents) + 2*len(c07Orders) + 2*len(c07SimulOrders)*c07SimulRepeat
+	return len(c07SingleEvents) + 2*len(c07Orders) + 2*len(c07SimulOrders)*c07SimulRepeat + 2*len(c07SteeredOrders)*c07SteeredRepeat
 }
 
 type c07A struct {
@@ -49,11 +57,12 @@ type c07A struct {
 	dmu   sync.Mutex
 	dialQ []net.Conn
 	dials []int64
+	gate  simOpenSentGate
 }
 
 func c07NewA(t *testing.T, rec *vlib.Rec, idx int, desc string, spkID string) *c07A {
 	a := &c07A{}
-	verifHookPtr.Store(&verifHooks{dial: func(ctx context.Context, addr string, port int) (net.Conn, bool) {
+	verifHookPtr.Store(&verifHooks{yield: a.gate.Yield, dial: func(ctx context.Context, addr string, port int) (net.Conn, bool) {
 		a.dmu.Lock()
 		defer a.dmu.Unlock()
 		a.dials = append(a.dials, int64(time.Since(a.t0)))
@@ -180,8 +189,14 @@ func c07RunCollision(t *testing.T, rec *vlib.Rec, idx, sub int) {
 		return
 	}
 	sub -= 2 * len(c07Orders)
-	sub %= 2 * len(c07SimulOrders)
-	c07RunCollisionOrder(t, rec, idx, c07SimulOrders[sub%len(c07SimulOrders)], sub/len(c07SimulOrders) == 1)
+	if sub < 2*len(c07SimulOrders)*c07SimulRepeat {
+		sub %= 2 * len(c07SimulOrders)
+		c07RunCollisionOrder(t, rec, idx, c07SimulOrders[sub%len(c07SimulOrders)], sub/len(c07SimulOrders) == 1)
+		return
+	}
+	sub -= 2 * len(c07SimulOrders) * c07SimulRepeat
+	sub %= 2 * len(c07SteeredOrders)
+	c07RunCollisionOrder(t, rec, idx, c07SteeredOrders[sub%len(c07SteeredOrders)], sub/len(c07SteeredOrders) == 1)
 }
 
 // ---------------------------------------------------------------- single outbound connection
@@ -350,7 +365,9 @@ func c07RunCollisionOrder(t *testing.T, rec *vlib.Rec, idx int, order string, re
 	a.look()
 	// keys name the root cause (which OPEN gobgp saw first), the witness carries the order and the identifiers
 	firstOpen := "open-on-inbound-first"
-	if strings.Contains(order, "|") {
+	if strings.HasPrefix(order, "G") {
+		firstOpen = "both-opens-pending"
+	} else if strings.Contains(order, "|") {
 		firstOpen = "opens-simultaneous"
 	} else if strings.Index(order, "Oo") < strings.Index(order, "Io") || !strings.Contains(order, "Io") {
 		firstOpen = "open-on-outbound-first"
@@ -368,10 +385,21 @@ func c07RunCollisionOrder(t *testing.T, rec *vlib.Rec, idx int, order string, re
 		}
 	}
 	sentOpen := map[*c07Conn]bool{}
+	lastSt, sawOpenSent, idleAfterOpenSent := c07Idle, false, false
 	for _, step := range strings.Fields(order) {
 		a.logf("event %s", step)
 		rec.Count("ev_collision_"+step, 1)
 		switch step {
+		case "G":
+			a.gate.Hold()
+			continue
+		case "R":
+			if a.gate.Hits.Load() == 0 {
+				rec.Count("collision_steered_gate_not_reached", 1)
+			} else {
+				rec.Count("collision_steered_gate_held", 1)
+			}
+			a.gate.Release()
 		case "Ic":
 			var g net.Conn
 			g, in = a.newConn("in")
@@ -409,8 +437,17 @@ func c07RunCollisionOrder(t *testing.T, rec *vlib.Rec, idx int, order string, re
 			}
 		}
 		synctest.Wait()
-		per, _, _, _ := a.look()
+		per, tr, st, _ := a.look()
 		merge(per)
+		lastSt = st
+		for _, t := range tr {
+			if sawOpenSent && t.st == c07Idle {
+				idleAfterOpenSent = true
+			}
+			if t.st == c07OpenSent {
+				sawOpenSent = true
+			}
+		}
 	}
 	full := func(c *c07Conn) bool {
 		return c != nil && got[c] != nil && c07HasType(got[c], bgp.BGP_MSG_OPEN) != nil && sentOpen[c]
@@ -422,6 +459,22 @@ func c07RunCollisionOrder(t *testing.T, rec *vlib.Rec, idx int, order string, re
 		out.write(a.msgBytes(c07EvKeepalive))
 		synctest.Wait()
 		_, _, st, _ := a.look()
+		if st != c07Established && remoteHigher {
+			// RFC 4271 6.8 lets a speaker that knows the peer's identifier examine OpenSent connections too: with the
+			// peer dominant gobgp may hold the outbound connection back for the peer's OPEN on the inbound one,
+			// which then has to win
+			rec.Count("collision_inbound_silent_waits_for_dominant_peer", 1)
+			a.logf("event Io (late)")
+			w := in.write(a.msgBytes(c07EvOpenValid))
+			synctest.Wait()
+			per, _, st2, _ := a.look()
+			merge(per)
+			if w() && in.isOpen() && !out.isOpen() && c07HasType(got[in], bgp.BGP_MSG_KEEPALIVE) != nil && st2 == c07OpenConfirm {
+				a.establishOn(in, key, false)
+				rec.Nontrivial(desc)
+				return
+			}
+		}
 		if st != c07Established {
 			a.violation(key("fsm-stuck-until-open-on-inbound"), fmt.Sprintf("%s: OPEN and KEEPALIVE were exchanged on the outbound connection while the inbound one is still waiting for the peer's OPEN; the session is %s and gobgp does not read the outbound connection", desc, st))
 		}
@@ -472,6 +525,10 @@ func c07RunCollisionOrder(t *testing.T, rec *vlib.Rec, idx int, order string, re
 		}
 		if c07HasType(got[survivor], bgp.BGP_MSG_KEEPALIVE) == nil {
 			a.violation(key("survivor-no-keepalive"), fmt.Sprintf("%s: gobgp did not send KEEPALIVE on the surviving connection (%v)", desc, got[survivor].msgs))
+		}
+		// the loser must not cost the session: OpenSent -> OpenConfirm on the survivor, never Idle
+		if lastSt != c07OpenConfirm || idleAfterOpenSent {
+			a.violation(key("resolved-but-state-"+lastSt.String()), fmt.Sprintf("%s: the collision was resolved in favour of the %sbound connection, on which both OPENs are exchanged; the session must be OpenConfirm, it is %s (fell back to Idle: %v)", desc, survivor.dir, lastSt, idleAfterOpenSent))
 		}
 	}
 	if lOpen {
